@@ -11,6 +11,7 @@ import PLS.Model.Venv
 import PLS.Model.Lsp
 import PLS.Model.Completion
 import PLS.Model.Config
+import PLS.Model.Conc
 import PLS.Generated
 import PLS.Spec.Pytest
 import Driver.Sexp
@@ -343,6 +344,54 @@ def runH (c : CaseSt) (t : List String) : Option (String × CaseSt) :=
     upd (if outs.length == 1 then outs.head! else "ANYOF " ++ " || ".intercalate outs, st)
   | _ => none
 
+/-! ### `q conc`: replay of one interleaving on the op-level model (C09 / C10) -/
+
+def splitBar (t : List String) : List (List String) :=
+  let rec go : List String → List String → List (List String)
+    | [], cur => [cur.reverse]
+    | x :: xs, cur => if x == "|" then cur.reverse :: go xs [] else go xs (x :: cur)
+  go t []
+
+def concInstr (tok : String) : Option Conc.XInstr :=
+  match tok.splitOn "." with
+  | ["r", k] => some (.base (.retain k))
+  | ["c", k] => some (.base (.condRemove k))
+  | ["p", k, t] => some (.base (.push k t.toNat!))
+  | ["x", k] => some (.remove k)
+  | _ => none
+
+def concEnt (tok : String) : Option Conc.Ent :=
+  match tok.splitOn "." with
+  | [f, t] => some ⟨f.toNat!, t.toNat!⟩
+  | _ => none
+
+/-- `conc <sched> | <key:f.t+f.t …> | <file> <instr…> | <file> <instr…> …` -/
+def runConc (t : List String) : String :=
+  match splitBar t with
+  | sched :: init :: threads =>
+    let sched := (sched.flatMap (fun x => x.splitOn ",")).filterMap (fun x => x.toNat?)
+    let initL : List (String × List Conc.Ent) := init.filterMap (fun e =>
+      match e.splitOn ":" with
+      | [k, v] => some (k, (v.splitOn "+").filterMap concEnt)
+      | _ => none)
+    let m0 : Conc.Map := fun k => (initL.find? (·.1 == k)).map (·.2)
+    let ts : List Conc.XThread := threads.filterMap (fun th =>
+      match th with
+      | f :: instrs => some { file := f.toNat!, flag := false, prog := instrs.filterMap concInstr }
+      | [] => none)
+    let keys := (initL.map (·.1) ++ (threads.flatMap (fun th => th.drop 1)).filterMap (fun tok =>
+      match tok.splitOn "." with
+      | _ :: k :: _ => some k
+      | _ => none)).eraseDups
+    let fin := Conc.runX { m := m0, ts := ts } sched
+    let left := (fin.ts.map (fun t => t.prog.length)).foldl (· + ·) 0
+    let shown := (keys.toArray.qsort (· < ·)).toList.filterMap (fun k =>
+      match fin.m k with
+      | none => none
+      | some v => some (k ++ "=[" ++ ",".intercalate (v.map (fun e => s!"{e.file}.{e.tag}")) ++ "]"))
+    (if left == 0 then "" else s!"INCOMPLETE({left}) ") ++ ";".intercalate shown
+  | _ => "BADCONC"
+
 def runQ (c : CaseSt) (t : List String) : String × CaseSt :=
   match runH c t with
   | some r => r
@@ -350,6 +399,7 @@ def runQ (c : CaseSt) (t : List String) : String × CaseSt :=
   let st := c.st
   let upd (r : String × Index) : String × CaseSt := (r.1, { c with st := r.2 })
   match t with
+  | "conc" :: rest => (runConc rest, c)
   | ["goto", p, l, ch] =>
     let (r, st) := st.goto (pathOf p) l.toNat! ch.toNat!
     upd (optDef r, st)
